@@ -30,9 +30,12 @@ ASSUMPTIONS = [
     "virtual time; wire requests of class (b) are on_request_start(); sleep; on_request_end() on the real RequestContextHolder",
     "a context is only required to span wire requests that ended before the context was read/exited (children are joined before the parent exits)",
     "contexts without any wire request in their subtree are not judged",
+    "'all HTTP requests issued on its behalf' includes requests that fail (refused, timed out, error status) and sub-requests whose context is left "
+    "through an exception; a request cancelled in flight because a sibling stream failed ends after the logical request was read and is optional",
 ]
 REQUIRED_CLAUSES = ["a:logical-span", "a:dependent-timing", "a:no-leak", "b:span-start", "b:span-end", "b:own-span", "b:no-leak"]
-REQUIRED_FEATURES = {"a:nested-streams": 10, "a:concurrent-clients": 10, "a:limited-connections": 5, "a:scroll": 5, "b:sibling-exits-out-of-start-order": 10, "b:lingering-child": 10, "b:multi-tree": 10}
+REQUIRED_FEATURES = {"a:nested-streams": 10, "a:concurrent-clients": 10, "a:limited-connections": 5, "a:scroll": 5, "a:failed-wire-request": 10, "a:last-wire-request-raised": 5,
+                     "b:sibling-exits-out-of-start-order": 10, "b:lingering-child": 10, "b:multi-tree": 10, "b:failed-child-with-requests": 10}
 BUDGET = {"quick": {"cases": 7000, "seconds": 40}, "thorough": {"cases": 250000, "seconds": 600}}
 EPS = 1e-9
 
@@ -59,7 +62,13 @@ def gen_tree(rng, depth, counter, maxdepth):
             node["steps"].append(["join"])
     if rng.random() < 0.4:
         node["steps"].append(["wait", rng.choice([0.5, 2, 7])])  # lingers after its last request before leaving the context
+    if depth > 0 and rng.random() < 0.2:
+        node["raises"] = True  # leaves its context through an exception (a failed sub-request); the parent carries on
     return node
+
+
+class NodeFailed(Exception):
+    pass
 
 
 async def run_node(node, holder, clock, obs, tree_id):
@@ -78,16 +87,21 @@ async def run_node(node, holder, clock, obs, tree_id):
             elif kind == "task":
                 pending.append(asyncio.create_task(run_node(step[1], holder, clock, obs, tree_id)))
             elif kind == "inline":
-                await run_node(step[1], holder, clock, obs, tree_id)
+                try:
+                    await run_node(step[1], holder, clock, obs, tree_id)
+                except NodeFailed:
+                    pass
             elif kind == "join":
                 if pending:
-                    await asyncio.gather(*pending)
+                    await asyncio.gather(*pending, return_exceptions=True)
                     pending = []
             elif kind == "wait":
                 await asyncio.sleep(step[1])
         if pending:
-            await asyncio.gather(*pending)
+            await asyncio.gather(*pending, return_exceptions=True)
         obs["ctx"][(tree_id, node["id"])] = {"start": ctx.request_start, "end": ctx.request_end, "exit": clock.now}
+        if node.get("raises"):
+            raise NodeFailed()
 
 
 def subtree_ids(node):
@@ -168,6 +182,8 @@ def check_trees(ctx, trees, obs, problems, feats):
                     feats.add("b:sibling-exits-out-of-start-order")
             if node["steps"] and node["steps"][-1][0] == "wait" and node is not t["root"]:
                 feats.add("b:lingering-child")
+            if not is_leaf_only and any(n.get("raises") and by_node.get((ti, n["id"])) for n in all_nodes(node) if n is not node):
+                feats.add("b:failed-child-with-requests")
     if len(trees) > 1:
         feats.add("b:multi-tree")
 
@@ -243,15 +259,15 @@ def shrink_b(trees, clause):
 
 
 # =============================================================================================================== class (a)
-def gen_stream(rng, depth, names, maxdepth):
+def gen_stream(rng, depth, names, maxdepth, sleeps=True):
     items = []
     for _ in range(rng.randint(1, 3)):
         r = rng.random()
         if r < 0.35 and depth < maxdepth:
-            items.append({"stream": gen_stream(rng, depth + 1, names, maxdepth)})
+            items.append({"stream": gen_stream(rng, depth + 1, names, maxdepth, sleeps)})
         else:
             name = f"op{len(names)}"
-            kind = rng.choice(["raw-request", "raw-request", "search", "sleep"])
+            kind = rng.choice(["raw-request", "raw-request", "search", "sleep"] if sleeps else ["raw-request", "raw-request", "search"])
             names.append((name, kind))
             if kind == "raw-request":
                 items.append({"name": name, "operation-type": "raw-request", "path": f"/_verif/sub/{name}", "method": "GET"})
@@ -266,9 +282,12 @@ def gen_case_a(rng):
     clients = rng.choice([1, 1, 2, 4, 8, 16])
     kind = rng.choice(["composite", "composite", "composite", "scroll"])
     case = {"clients": clients, "kind": kind, "iterations": rng.choice([1, 2, 3]), "svc_seed": rng.randint(0, 1 << 30), "pc_offset": rng.choice([0.0, 777.25])}
+    # failing wire requests (connection refused, request timeout, HTTP error status); the operation is sampled all the same
+    # (on-error=continue). A failed composite returns no sub-request timings, so sleeps (whose span is only known from them) are left out
+    case["fail_rate"] = rng.choice([0, 0, 0, 0.15, 0.4])
     if kind == "composite":
         names = []
-        case["requests"] = gen_stream(rng, 0, names, rng.choice([0, 1, 2, 3]))
+        case["requests"] = gen_stream(rng, 0, names, rng.choice([0, 1, 2, 3]), sleeps=not case["fail_rate"])
         case["names"] = names
         case["max_connections"] = rng.choice([None, None, 1, 2, 3])
     else:
@@ -279,11 +298,30 @@ def gen_case_a(rng):
 def script_a(case):
     import random
 
+    refused = set()
+
     def script(rec):
         r = random.Random(f"{case['svc_seed']}:{rec['client']}:{rec['logical']}:{rec['path']}:{rec['method']}:{rec['id']}")
         d = r.choice([0.1, 0.5, 1, 2, 5, 9])
         out = simes.Outcome(before_headers=d * r.choice([0, 0.5, 1]), before_body=0)
         out.before_body = d - out.before_headers
+        if case.get("fail_rate") and r.random() < case["fail_rate"]:
+            how = r.choice(["refused", "refused-at-once", "timeout", 404, 500, 400])
+            if how.startswith("refused") if isinstance(how, str) else False:
+                # the transport retries a refused connection (a fourth refusal in a row would be fatal for the whole task): refuse once per request
+                key = (rec["client"], rec["logical"], rec["path"], rec["method"])
+                if key in refused:
+                    return out
+                refused.add(key)
+            if isinstance(how, int):
+                out.status = how
+                out.body = b'{"error":{"type":"verif","reason":"simulated"},"status":%d}' % how
+            elif how == "refused-at-once":
+                out.fail, out.before_headers = "refused", 0
+            else:
+                out.fail = how
+                out.before_headers = d
+            return out
         p = rec["path"]
         if p.endswith("/_search") and rec["query"].get("scroll"):
             out.body = b'{"_scroll_id":"abc","took":3,"timed_out":false,"hits":{"total":{"value":100,"relation":"eq"},"hits":[{"_id":"1"},{"_id":"2"}]}}'
@@ -333,6 +371,9 @@ def case_a(ctx, rng, explicit=None):
     for e in h.rec.logical:
         if "result" not in e:
             continue
+        if e["ordinal"] >= len(samples.get(e["client"], [])):
+            problems.append(("a:logical-span", f"client {e['client']} request #{e['ordinal']} was executed ({len(e['wire'])} wire requests) but no sample was recorded for it", None))
+            continue
         s = samples[e["client"]][e["ordinal"]]
         wires = [log[w] for w in e["wire"]]
         nwire = max(nwire, len(wires))
@@ -347,14 +388,42 @@ def case_a(ctx, rng, explicit=None):
                     flat.append(d["dependent_timing"])
         flatten(deps)
         # expected span of the logical request: all wire requests + sleeps (which call on_request_start/end themselves)
-        starts = [w["vt_start"] for w in wires] + [t["request_start"] - off for t in flat if t["operation-type"] == "sleep"]
-        ends = [w["vt_end"] for w in wires] + [t["request_end"] - off for t in flat if t["operation-type"] == "sleep"]
-        if starts:
+        # Which wire requests must the recorded span cover? All that ended before the logical request was read (T = the moment execute_single
+        # returned) - failed ones included. When the request fails, Composite leaves sibling streams running or cancels them after the fact:
+        # requests still in flight at T (cancelled or not) cannot be covered and are optional; so are requests of sibling streams that end in
+        # the very instant T (their order relative to the read is not determined by the statement) - except the failing request itself.
+        T = e["vt_finish"]
+        failed = e["result"]["success"] is False
+        done = [w for w in wires if w["fail"] != "cancelled-by-client" and w["vt_end"] is not None and not w.get("after_logical_request_finished")]
+        if failed:
+            strict = [w for w in done if w["vt_end"] < T - 1e-9]
+            at_t = [w for w in done if abs(w["vt_end"] - T) <= 1e-9]
+            culprits = [w for w in at_t if w["fail"] or (w["status"] or 0) >= 400]
+        else:
+            strict, at_t, culprits = done, [], []
+        optional = [w for w in wires if w not in strict and w not in culprits]
+        if any(w["fail"] or (w["status"] or 0) >= 400 for w in done):
+            feats.add("a:failed-wire-request")
+            if any(w["fail"] in ("refused", "timeout") for w in culprits):
+                feats.add("a:last-wire-request-raised")
+        sleep_s = [t["request_start"] - off for t in flat if t["operation-type"] == "sleep"]
+        sleep_e = [t["request_end"] - off for t in flat if t["operation-type"] == "sleep"]
+        starts = [w["vt_start"] for w in strict + culprits] + sleep_s
+        ends = [w["vt_end"] for w in strict + culprits] + sleep_e
+        wires = strict + culprits
+        if starts and (not failed or culprits):
             ctx.clause("a:logical-span")
-            if not close(s["service_time"], max(ends) - min(starts)):
-                problems.append(("a:logical-span", f"{where}: service_time {s['service_time']!r} but its sub-requests span {min(starts)!r}..{max(ends)!r}", None))
-            if not close(s["request_start"], off + min(starts)):
-                problems.append(("a:logical-span", f"{where}: request_start {s['request_start']!r} but the earliest sub-request started at {off + min(starts)!r}", None))
+            # with several culprits in the same instant one of them is enough
+            base_starts = [min([w["vt_start"] for w in strict] + sleep_s + [c["vt_start"]]) for c in culprits] or [min(starts)]
+            ok_starts = set(base_starts) | {w["vt_start"] for w in optional if w["vt_start"] < max(base_starts)}
+            ok_ends = {max(ends)}
+            if s["service_time"] is None or s["request_start"] is None:
+                problems.append(("a:logical-span", f"{where}: sample has request_start {s['request_start']!r} / service_time {s['service_time']!r} but its sub-requests span {min(starts)!r}..{max(ends)!r}", None))
+            else:
+                if not any(close(s["service_time"], e_ - s_) for e_ in ok_ends for s_ in ok_starts):
+                    problems.append(("a:logical-span", f"{where}: service_time {s['service_time']!r} but its sub-requests span {min(starts)!r}..{max(ends)!r}" + (f" (request failed at {T!r}; {len(optional)} wire requests in flight or finishing in that instant are not counted)" if failed else ""), None))
+                if not any(close(s["request_start"], off + s_) for s_ in ok_starts):
+                    problems.append(("a:logical-span", f"{where}: request_start {s['request_start']!r} but the earliest sub-request started at {off + min(starts)!r}", None))
         ctx.clause("a:no-leak")
         foreign = [w for w in h.sim.log if w["client"] != e["client"]]
         if wires and not any(close(s["request_start"], off + x) for x in starts) and any(close(s["request_start"], off + w["vt_start"]) for w in foreign):
